@@ -359,7 +359,12 @@ fn run_sched(sc: &Scen, world: &scen::World, out: &mut impl Write) {
 				for op in &prog {
 					let rc = w.exec(op);
 					let keyfree = ThreadKey::get().is_some();
-					plain_event(format!("ERet {} ({}) {}", t, rc, keyfree));
+					{
+						let mut c = ctl();
+						if !c.stopped {
+							c.push_bev(&format!("BRet {} ({}) {}", t, rc, keyfree));
+						}
+					}
 					if rc == "RBlockedC" {
 						break;
 					}
@@ -380,6 +385,7 @@ fn run_sched(sc: &Scen, world: &scen::World, out: &mut impl Write) {
 	drop(rtx);
 	// the scheduler: follow the schedule; skip entries naming a thread that cannot move
 	let mut used: Vec<usize> = vec![];
+	let mut noted: Vec<bool> = vec![false; n];
 	let mut status = "done";
 	let mut sidx = 0usize;
 	loop {
@@ -391,6 +397,18 @@ fn run_sched(sc: &Scen, world: &scen::World, out: &mut impl Write) {
 		let live: Vec<usize> = (0..n).filter(|&t| !matches!(c.pending[t], Pending::Done)).collect();
 		if live.is_empty() {
 			break;
+		}
+		// a thread found waiting (parked on a blocking acquisition that cannot be granted now) records, once,
+		// what it holds while it waits
+		for &t in &live {
+			if let Pending::Raw(k, l) = c.pending[t] {
+				if k.blocking() && !vlock::grantable(k, &c.locks[l].st, c.pend_writer(t, l)) && !noted[t] {
+					noted[t] = true;
+					let h: Vec<String> = c.held_by(t).iter().map(|x| x.to_string()).collect();
+					let e = format!("BWait {} {} [{}]", t, l, h.join("; "));
+					c.push_bev(&e);
+				}
+			}
 		}
 		let enabled: Vec<usize> = live
 			.iter()
@@ -424,6 +442,7 @@ fn run_sched(sc: &Scen, world: &scen::World, out: &mut impl Write) {
 		}
 		let t = pick.unwrap_or(enabled[0]);
 		used.push(t);
+		noted[t] = false;
 		c.turn = Some(t);
 		CV.notify_all();
 	}
